@@ -403,6 +403,7 @@ def explore_or_blame(run, max_paths):
 def analyse_shape(ctx, repo, raw, dname, fb, fam_count, variant, concrete=()):
     I = Interp(repo)
     I.uninterpreted_arith = True   # lengths and counters computed from symbolic fields are compared structurally
+    I.assert_ranges = True         # a range assertion that some in-range field value fails is an explored (raising) path
     install(I, repo)
     hdap_ci = repo.cls(f"{PMOD}.hdap", "HDAP")
 
